@@ -38,6 +38,14 @@ def run_ext_leg(leg, pid, tier, seed, tmp, root, harness):
             "CARGO_TARGET_DIR": os.path.join(root, "target-asan"),
             "ASAN_OPTIONS": "detect_leaks=0:halt_on_error=1:abort_on_error=0",
         })
+    elif kind == "tsan":
+        # ThreadSanitizer needs an instrumented std (-Zbuild-std, built offline from rust-src); exit code 66 = report
+        cmd = ["cargo", NIGHTLY, "run", "-q", "-Zbuild-std", "-p", leg["crate"], "--target", "x86_64-unknown-linux-gnu", "--"] + argv
+        env = _env({
+            "RUSTFLAGS": "--cfg genmeta_gm_quic_verif -Zsanitizer=thread",
+            "CARGO_TARGET_DIR": os.path.join(root, "target-tsan"),
+            "TSAN_OPTIONS": "halt_on_error=1:second_deadlock_stack=1",
+        })
     else:
         res["inconclusive"].append(f"leg {name}: unknown kind {kind}")
         return res
@@ -57,13 +65,17 @@ def run_ext_leg(leg, pid, tier, seed, tmp, root, harness):
             ub = m.group(0)
         elif m:
             res["inconclusive"].append(f"leg {name}: miri unsupported operation: {m.group(0)[:200]}")
+    elif kind == "tsan":
+        m = re.search(r"WARNING: ThreadSanitizer[^\n]*", err)
+        if m:
+            ub = m.group(0)
     else:
         m = re.search(r"ERROR: AddressSanitizer[^\n]*", err)
         if m:
             ub = m.group(0)
     if ub:
         where = re.findall(r"-->\s*(\S+)|#\d+ 0x[0-9a-f]+ in (\S+)", err)
-        frame = next((a or b for a, b in where if "/repo/" in (a or b) or "qbase" in (a or b) or "qrecovery" in (a or b)), "")
+        frame = next((a or b for a, b in where if any(t in (a or b) for t in ("/repo/", "qbase", "qrecovery", "qconnection", "qinterface", "qcongestion", "qdatagram"))), "")
         sig = f"{pid}.{kind}:{re.sub(r'[^A-Za-z0-9_.:/-]', '_', frame)[-60:] or 'report'}"
         rp = os.path.join(root, "replays", f"{pid}-{kind}-{seed}.json")
         os.makedirs(os.path.dirname(rp), exist_ok=True)
